@@ -12,10 +12,10 @@ Inductive kind :=
 | KChunk | KChunkWithPayment | KTransaction | KTransactionWithPayment
 | KRegister | KRegisterWithPayment | KScratchpad | KScratchpadWithPayment.
 
-(* declaration order of `enum RecordKind` *)
+(* the variants of `enum RecordKind`, by name *)
 Definition all_kinds : list kind :=
-  [KChunk; KChunkWithPayment; KTransaction; KTransactionWithPayment;
-   KRegister; KRegisterWithPayment; KScratchpad; KScratchpadWithPayment].
+  [KChunk; KChunkWithPayment; KRegister; KRegisterWithPayment; KScratchpad; KScratchpadWithPayment;
+   KTransaction; KTransactionWithPayment].
 
 Definition kind_name (k : kind) : string :=
   match k with
@@ -61,7 +61,7 @@ Definition kind_of_tag (n : N) : option kind :=
   | _ => None
   end.
 
-(* the tables as the translator reads them from header.rs: (name, number) in source order *)
+(* the tables as the translator reads them from header.rs: (name, number) sorted by number *)
 Definition kind_of_name (s : string) : option kind :=
   find (fun k => String.eqb (kind_name k) s) all_kinds.
 
@@ -242,7 +242,7 @@ Definition agree_decode_record (exact : bool) (as_kind : kind) (bs : list N)
            (r_header : option kind) (r_value : option sval) : bool :=
   kind_opt_eqb (from_record bs) r_header &&
   match decode_value (shape_of_kind as_kind) bs, r_value with
-  | Some v, Some v' => sval_eqb v v'
+  | Some v, Some v' => if exact then sval_eqb v v' else sval_sim v v'
   | None, None => true
   | _, _ => negb exact
   end.
